@@ -444,7 +444,15 @@ func runReplay(t *testing.T) {
 		fmt.Println("REPLAY " + string(rb))
 		os.Exit(0)
 	})
-	res := c.Exec(f.Spec.Clone())
+	spec := f.Spec.Clone()
+	if v := os.Getenv("VERIF_REPLAY_SCHED"); v != "" {
+		// the same requests, world and faults under another seeded schedule (used to recognise a known finding on a tree whose
+		// call sequence differs from the one the replay file's explicit schedule was recorded on)
+		var seed uint64
+		fmt.Sscan(v, &seed)
+		spec.Sched = SchedSpec{Strategy: "random", Seed: seed}
+	}
+	res := c.Exec(spec)
 	same := false
 	for _, v := range res.Viol {
 		if v.Sig() == f.Viol.Sig() {
